@@ -382,6 +382,20 @@ class Ghost(ModelObject):
         return Ghost("instance", cls=self, args=list(args), kwargs=dict(kwargs))
 
 
+class SysModules(ModelObject):
+    """sys.modules as load_module may see it: the process has an arbitrary history, so ANY name may already be
+    registered (with some other module object); registering a module is allowed."""
+
+    def pv_contains(self, cx, item):
+        return cx.fresh("already_in_sys_modules", "bool")
+
+    def pv_getitem(self, cx, key):
+        return Ghost("module", origin="sys.modules (whatever an earlier call registered under that name)", name=key, classes=("IBM",))
+
+    def pv_setitem(self, cx, key, val):
+        return None
+
+
 class LoadModule(Spec):
     """load_module: a file <name>.py that exists is loaded and returned (never the module of the same name on sys.path);
     otherwise the importable module; neither: SystemExit."""
@@ -409,7 +423,8 @@ class LoadModule(Spec):
                 return Ghost("module", origin="sys.path", name=name, classes=("IBM",))
             raise PyRaise("ModuleNotFoundError", (name,))
 
-        self.externals = {"pathlib.Path": path, "importlib.util.spec_from_file_location": spec_from_file_location, "importlib.util.module_from_spec": module_from_spec, "importlib.import_module": import_module}
+        self.externals = {"pathlib.Path": path, "importlib.util.spec_from_file_location": spec_from_file_location, "importlib.util.module_from_spec": module_from_spec, "importlib.import_module": import_module,
+                          "sys.modules": SysModules()}
 
     def inputs(self, cx):
         return Args(module_name=self.given)
